@@ -23,10 +23,11 @@ EXTENDS Phout, Json, IOUtils
 VARIABLES l,         \* next line of the trace
           kind, ids, mode, \* of the current run (mode "cancel": an engine run cancelled from outside mid-run)
           before,    \* mode "cancel": Report calls that had returned when the run was cancelled
-          pending,   \* expected lines (phout: column tuples; jsonlines: samples) of reports not yet seen in the sink
-          nrep, nwritten, cancelled, closed, ended, bad
+          pending,   \* bag (expected line -> count) of reports not yet seen in the sink
+                     \* (phout: column tuples; jsonlines: samples)
+          nrep, nmatched, nwritten, cancelled, closed, ended, bad
 
-vars == <<l, kind, ids, mode, before, pending, nrep, nwritten, cancelled, closed, ended, bad>>
+vars == <<l, kind, ids, mode, before, pending, nrep, nmatched, nwritten, cancelled, closed, ended, bad>>
 
 Trace == ndJsonDeserialize(IOEnv.VERIF_TRACE)
 Ev == Trace[l]
@@ -37,29 +38,32 @@ Flag(cond, name) == IF cond THEN {} ELSE {name}
 Abs(s) == [sec |-> s.sec, ms |-> s.ms, tag |-> s.tag, id |-> s.id, f |-> s.f]
 Expect(s) == IF kind = "phout" THEN PhoutLine(Abs(s), ids) ELSE s
 
-RemoveAt(seq, i) == [j \in 1..(Len(seq) - 1) |-> IF j < i THEN seq[j] ELSE seq[j + 1]]
-Matches(x) == {i \in DOMAIN pending : pending[i] = x}
-Min(S) == CHOOSE i \in S : \A j \in S : i <= j
+\* bags as functions; an entry may go down to 0
+AddN(bag, x, n) == IF x \in DOMAIN bag THEN [bag EXCEPT ![x] = @ + n] ELSE bag @@ (x :> n)
+Has(bag, x) == x \in DOMAIN bag /\ bag[x] > 0
 
-Init == /\ l = 1 /\ kind = "" /\ ids = FALSE /\ mode = "" /\ before = -1 /\ pending = <<>> /\ nrep = 0 /\ nwritten = 0
+Init == /\ l = 1 /\ kind = "" /\ ids = FALSE /\ mode = "" /\ before = -1 /\ pending = <<>> /\ nrep = 0 /\ nmatched = 0 /\ nwritten = 0
         /\ cancelled = FALSE /\ closed = FALSE /\ ended = TRUE /\ bad = {}
 
 Run == /\ Ev.ev = "Run"
-       /\ kind' = Ev.kind /\ ids' = Ev.ids /\ mode' = Ev.mode /\ before' = -1 /\ pending' = <<>> /\ nrep' = 0 /\ nwritten' = 0
+       /\ kind' = Ev.kind /\ ids' = Ev.ids /\ mode' = Ev.mode /\ before' = -1 /\ pending' = <<>> /\ nrep' = 0 /\ nmatched' = 0 /\ nwritten' = 0
        /\ cancelled' = FALSE /\ closed' = FALSE /\ ended' = FALSE
        /\ bad' = bad \cup Flag(ended, "PreviousRunNotEnded")
 
-Report == /\ Ev.ev = "Report"
-          /\ pending' = Append(pending, Expect(Ev.s))
-          /\ nrep' = nrep + 1
+\* one report, or (mode "dropstress") n reports of the same sample by one goroutine
+Report == /\ Ev.ev \in {"Report", "Reports"}
+          /\ LET n == IF Ev.ev = "Report" THEN 1 ELSE Ev.n IN
+             /\ pending' = AddN(pending, Expect(Ev.s), n)
+             /\ nrep' = nrep + n
           /\ bad' = bad \cup Flag(WellFormedSample(Abs(Ev.s)), "DriverSampleOutsideDomain")
                         \cup Flag(~cancelled \/ mode = "cancel", "DriverReportAfterCancel")
-          /\ UNCHANGED <<kind, ids, mode, before, nwritten, cancelled, closed, ended>>
+          /\ UNCHANGED <<kind, ids, mode, before, nmatched, nwritten, cancelled, closed, ended>>
 
 \* a complete line reached the sink
-Written(x) == /\ LET m == Matches(x) IN
-                 /\ pending' = IF m = {} THEN pending ELSE RemoveAt(pending, Min(m))
-                 /\ bad' = bad \cup Flag(m # {}, "LineIsNoUnwrittenReport")   \* malformed, invented or duplicated
+Written(x) == /\ LET m == Has(pending, x) IN
+                 /\ pending' = IF m THEN [pending EXCEPT ![x] = @ - 1] ELSE pending
+                 /\ nmatched' = IF m THEN nmatched + 1 ELSE nmatched
+                 /\ bad' = bad \cup Flag(m, "LineIsNoUnwrittenReport")   \* malformed, invented or duplicated
                                \cup Flag(~closed, "WriteAfterClose")
                                \cup Flag(~ended, "WriteAfterReturn")
               /\ nwritten' = nwritten + 1
@@ -70,22 +74,22 @@ JLine == Ev.ev = "JLine" /\ Written(Ev.s)
 BadLine == /\ Ev.ev \in {"BadLine", "WriteAfterClose"}
            /\ bad' = bad \cup (IF Ev.ev = "BadLine" THEN {"MalformedLine"} ELSE {"WriteAfterClose"})
            /\ nwritten' = nwritten + (IF Ev.ev = "BadLine" THEN 1 ELSE 0)
-           /\ UNCHANGED <<kind, ids, mode, before, pending, nrep, cancelled, closed, ended>>
+           /\ UNCHANGED <<kind, ids, mode, before, pending, nrep, nmatched, cancelled, closed, ended>>
 
 Cancel == /\ Ev.ev = "Cancel"
           /\ cancelled' = TRUE
           /\ before' = IF mode = "cancel" THEN Ev.returned_before ELSE before
-          /\ UNCHANGED <<kind, ids, mode, pending, nrep, nwritten, closed, ended, bad>>
+          /\ UNCHANGED <<kind, ids, mode, pending, nrep, nmatched, nwritten, closed, ended, bad>>
 
 SinkClosed == /\ Ev.ev = "SinkClosed"
               /\ closed' = TRUE
               /\ bad' = bad \cup Flag(Ev.partial = 0, "PartialLastLine") \cup Flag(~closed, "ClosedTwice")
-              /\ UNCHANGED <<kind, ids, mode, before, pending, nrep, nwritten, cancelled, ended>>
+              /\ UNCHANGED <<kind, ids, mode, before, pending, nrep, nmatched, nwritten, cancelled, ended>>
 
 EngineEnd == /\ Ev.ev = "EngineEnd"
              /\ bad' = bad \cup Flag(~Ev.timeout, "EngineDidNotStop")
                            \cup Flag(mode = "cancel" \/ Ev.err = "<nil>", "EngineRunFailed")
-             /\ UNCHANGED <<kind, ids, mode, before, pending, nrep, nwritten, cancelled, closed, ended>>
+             /\ UNCHANGED <<kind, ids, mode, before, pending, nrep, nmatched, nwritten, cancelled, closed, ended>>
 
 \* Aggregator.Run returned: THE property (Aggregator!CompleteAtReturn on what is observable)
 RunEnd == /\ Ev.ev = "RunEnd"
@@ -97,15 +101,15 @@ RunEnd == /\ Ev.ev = "RunEnd"
                               THEN Flag(before >= 0 /\ CompleteBetween(nwritten, Ev.dropped, before, nrep),
                                         "ReportsMadeBeforeTheCancelMissing")
                               ELSE Flag(CompleteCounts(nwritten, Ev.dropped, nrep), "LinesPlusDropsIsNotReports")
-                                   \cup Flag(Len(pending) = Ev.dropped, "UnwrittenIsNotDropped"))
+                                   \cup Flag(nrep - nmatched = Ev.dropped, "UnwrittenIsNotDropped"))
                         \cup Flag(kind = "phout" => Ev.dropped = 0, "BlockingAggregatorDropped")
                         \cup Flag(Ev.err = "", "UnexpectedRunError")
-          /\ UNCHANGED <<kind, ids, mode, before, pending, nrep, nwritten, cancelled, closed>>
+          /\ UNCHANGED <<kind, ids, mode, before, pending, nrep, nmatched, nwritten, cancelled, closed>>
 
 \* what the destination file finally holds is what the sink received
 Content == /\ Ev.ev = "Content"
            /\ bad' = bad \cup Flag(Ev.lines = nwritten /\ Ev.partial = 0, "ContentMismatch")
-           /\ UNCHANGED <<kind, ids, mode, before, pending, nrep, nwritten, cancelled, closed, ended>>
+           /\ UNCHANGED <<kind, ids, mode, before, pending, nrep, nmatched, nwritten, cancelled, closed, ended>>
 
 Next == /\ l <= Len(Trace)
         /\ l' = l + 1
